@@ -25,6 +25,9 @@ package main
 // Alias oracle: every query on a sequence whose taxid is a merged id is run again with the taxid it resolves to; the two
 // answers must be the same (<op>.alias).
 //
+// wave 3 (c14_conc.go): conc <g> <r> tax|taxd … : the queries from g goroutines sharing the taxonomy and the predicates / workers built
+// once, as the parallel workers of obigrep / obiannotate / obicleandb / obitag do; race conc …: the same under the race detector.
+//
 // The oracle is computed from the parent table of the case line only (ancestor chains walked naively).
 
 import (
